@@ -1200,6 +1200,7 @@ func runC01(e *Env) error {
 	c01StopWorker()
 	// process-wide state that is not a pool: the attribute cache
 	c01AttrOrders(e)
+	c01SharedHandles(e)
 	return nil
 }
 
